@@ -2,7 +2,7 @@
 # dev helper: run core harnesses matching filters in a persistent scratch copy (/var/tmp/vt).
 # usage: dev_run.sh [-t secs] [-m GB] [-j N] [-s] [-T tag] filter...
 T=600; M=16; J=8; STUB=""; FS=""; TAG=core; EXTRA=""
-while getopts "t:m:j:sT:nEf" o; do case $o in t) T=$OPTARG;; m) M=$OPTARG;; j) J=$OPTARG;; s) STUB="-Z stubbing";; T) TAG=$OPTARG;; n) FS="";; f) FS="--cbmc-args --max-field-sensitivity-array-size 512";; E) export VERIF_THOROUGH=1;; esac; done
+while getopts "t:m:j:sT:nEfC:" o; do case $o in t) T=$OPTARG;; m) M=$OPTARG;; j) J=$OPTARG;; s) STUB="-Z stubbing";; T) TAG=$OPTARG;; n) FS="";; f) FS="--cbmc-args --max-field-sensitivity-array-size 512";; E) export VERIF_THOROUGH=1;; C) FS="--cbmc-args $OPTARG";; esac; done
 shift $((OPTIND-1))
 H=""; for f in "$@"; do H="$H --harness $f"; done
 mkdir -p /var/tmp/vt/repo/.cargo
